@@ -4,6 +4,7 @@
 import PS.Proofs.Enum.BeeSoundRun
 import PS.Proofs.Enum.BeeNodupRun
 import PS.Proofs.Enum.BeeCover
+import PS.Proofs.Enum.BeeOffer
 import Mathlib.Data.List.Perm.Subperm
 namespace PS.C02Bee
 open PS PS.G PS.Bee
@@ -154,6 +155,53 @@ theorem C02_Bee_count_complete_partial (E : Env S) (hd : dictOK E = true) (hf : 
 example : dictOK cE = true ∧ initFrontOK cE = true ∧ initCoverOK cE = true := by decide +kernel
 example : ((Gen.new cE).bind fun g => runActs cE 1000 [.take 3, .take 10] g []).map (fun r => decide r.2.Nodup && decide (r.2.length = 5)) = some true := by
   decide +kernel
+
+/-! ### 3. the local steps of completeness (the global statement is NOT proved: compared only)
+
+Blueprint (DESIGN B.1): (i) the frontier rule reaches every index combination exactly once — `C02_Bee_frontier_cover_partial`;
+(ii) an expansion offers EVERY program that can be built from the argument banks at its indices, and takes the "failed"
+branch only when there is none — below; (iii) each offered program is banked unless rejected or deleted — below;
+(iv) no program arrives in an argument bank AFTER a combination using its index was expanded: true only when rules with
+arguments cost > 0 (`posArgCosts`), false otherwise (finding C02-F6); NOT proved. -/
+
+/-- (ii) "Generate programs" (bee_search.py:220-239): if every argument bank at the popped combination's index is non-empty,
+    every tuple of argument programs from those banks is in the product that is offered to `_add_program_` -/
+theorem C02_Bee_expansion_offers_all (s : St S) (combo : List Nat) (args : List (Ty × S)) (aps : List (List Prog))
+    (h : argsPossibles s combo args 0 = some (some aps)) (kids : List Prog) (hlen : kids.length = args.length)
+    (hk : ∀ (j : Nat) (a : Ty × S) (k : Prog) (v : Nat), args[j]? = some a → kids[j]? = some k → combo[j]? = some v →
+      inBank s (a.1, (a.2, ())) v k)
+    (hcombo : args.length ≤ combo.length) : kids ∈ product aps := offers_all s combo args aps h kids hlen hk hcombo
+
+/-- (ii) the "failed" branch (bee_search.py:224-229) is taken only when NO program can be built from the banks -/
+theorem C02_Bee_failed_branch_empty (s : St S) (combo : List Nat) (args : List (Ty × S))
+    (h : argsPossibles s combo args 0 = some none) :
+    ¬ ∃ kids : List Prog, kids.length = args.length ∧
+      ∀ (j : Nat) (a : Ty × S) (k : Prog) (v : Nat), args[j]? = some a → kids[j]? = some k → combo[j]? = some v →
+        inBank s (a.1, (a.2, ())) v k := by
+  have := no_offer s combo args 0 h
+  simpa using this
+
+/-- (iii) `_add_program_`: an offered program is banked at the cost index, or the filter rejects it (and it is recorded in
+    `_deleted`), or it was already in `_deleted` -/
+theorem C02_Bee_add_program_cases (E : Env S) (s : St S) (nt : NT S Unit) (p : Prog) (ci : Nat) :
+    ((addProgram E s nt p ci).2 = true ∧ inBank (addProgram E s nt p ci).1 nt ci p) ∨
+    ((addProgram E s nt p ci).2 = false ∧ E.filter p = false ∧ (addProgram E s nt p ci).1.deleted.contains p = true) ∨
+    ((addProgram E s nt p ci).2 = false ∧ s.deleted.contains p = true) := by
+  unfold addProgram
+  by_cases hd : s.deleted.contains p = true
+  · rw [if_pos hd]; exact Or.inr (Or.inr ⟨rfl, hd⟩)
+  · rw [if_neg hd]
+    by_cases hf : E.filter p = true
+    · have hnf : ¬ ((!E.filter p) = true) := by simp [hf]
+      rw [if_neg hnf]
+      refine Or.inl ⟨rfl, ?_⟩
+      unfold inBank
+      simp only [St.bankOf, AList.lookup_insert_self, Option.getD_some]
+      exact (inBank_append _ ci ci p p).mpr (Or.inr ⟨rfl, rfl⟩)
+    · have hnf : (!E.filter p) = true := by simpa using hf
+      rw [if_pos hnf]
+      refine Or.inr (Or.inl ⟨rfl, by simpa using hf, ?_⟩)
+      simp
 
 /-! ### finding C02-F6: a rule with arguments of cost 0 loses programs -/
 
